@@ -370,6 +370,7 @@ func jLoop(t *testing.T, r *fw.Run, phase string, n int, g jGen, nRandom, nNth i
 func TestC03(t *testing.T) {
 	r := fw.Start(t, "C03")
 	defer r.Finish()
+	c03Large(t, r)
 	g := jGen{Cancels: true, ClientFaults: true, MidShutdown: true, EmptyTopics: true, BadIDs: true, Replayers: []string{"rec", "rec", "finite:4:auto", "valid:manual", "none"}, MaxSubs: 5, MaxPubs: 4, MaxMsgs: 6, Latency: true, LateSubscribe: true}
 	jLoop(t, r, "S", r.N(4000, 60000), g, 4, 5, jTargeted, func(sc *jScenario, tr *jTrace) []jv {
 		out := oracleDelivery(sc, tr, false)
@@ -385,6 +386,29 @@ func TestC03(t *testing.T) {
 		}
 		return out
 	})
+}
+
+// TestC03 also runs a few large scenarios (tens of subscribers, hundreds of messages).
+func c03Large(t *testing.T, r *fw.Run) {
+	n := r.N(32, 600)
+	sigs := map[uint64]struct{}{}
+	for i := 0; i < n; i++ {
+		if !r.Mine("L", i) {
+			continue
+		}
+		key := fw.Key("L", i)
+		rng := r.Rand("L", i)
+		g := jGen{Cancels: true, ClientFaults: true, EmptyTopics: true, Replayers: []string{"rec", "finite:300:auto", "valid:manual"}, MaxSubs: 40, MaxPubs: 5, MaxMsgs: 80, Latency: true, LateSubscribe: true}
+		sc := genJoe(rng, g)
+		sc.Procs = jProcs[i%len(jProcs)]
+		jRunAll(t, r, key, sc, []jHook{{Kind: "none"}, {Kind: "random", P: 0.3, Dmax: 20, Seed: rng.Uint64()}}, func(sc *jScenario, tr *jTrace) []jv {
+			out := oracleDelivery(sc, tr, false)
+			out = append(out, oracleFlush(tr)...)
+			out = append(out, oraclePublishReturns(tr)...)
+			return out
+		}, sigs)
+		r.Count("large_scenarios", 1)
+	}
 }
 
 // ---- C04 -----------------------------------------------------------------------------------
